@@ -384,6 +384,37 @@ fn static_battery(cfg: &Cfg, rep: &mut Report) {
       }
     }
   }
+  // sum() is generic over Default + Add: with an item type whose `+` does not commute
+  // (concatenation) the result must be the left fold in emission order, like reduce(|acc, v| acc + v)
+  if cfg.shard == 0 && cfg.only_case.as_deref().map_or(true, |c| c.starts_with("typed:cat")) {
+    #[derive(Clone, Default, PartialEq, Debug)]
+    struct Cat(String);
+    impl std::ops::Add for Cat {
+      type Output = Cat;
+      fn add(self, o: Cat) -> Cat {
+        Cat(self.0 + &o.0)
+      }
+    }
+    for words in [vec![], vec!["a"], vec!["a", "b"], vec!["a", "b", "c", "d"], vec!["x", "y", "x"]] {
+      rep.evaluations += 1;
+      rep.count("static_battery_cases", 1);
+      let items: Vec<Cat> = words.iter().map(|w| Cat(w.to_string())).collect();
+      let got: Rc<RefCell<Vec<String>>> = Default::default();
+      let (g1, g2) = (got.clone(), got.clone());
+      observable::from_iter(items.clone()).sum().subscribe(move |c: Cat| g1.borrow_mut().push(format!("sum {}", c.0)));
+      observable::from_iter(items.clone()).reduce(|acc: Cat, v: Cat| acc + v).subscribe(move |c: Cat| g2.borrow_mut().push(format!("reduce {}", c.0)));
+      let joined: String = words.concat();
+      // an empty input: sum() gives Default (the empty string), reduce gives nothing? both documented forms are accepted for the empty case
+      let got = got.borrow().clone();
+      let sum_ok = got.iter().filter(|l| l.starts_with("sum ")).collect::<Vec<_>>() == vec![&format!("sum {}", joined)];
+      let red: Vec<&String> = got.iter().filter(|l| l.starts_with("reduce ")).collect();
+      let red_ok = red.is_empty() && words.is_empty() || red == vec![&format!("reduce {}", joined)];
+      rep.events += got.len() as u64;
+      if !sum_ok || !red_ok {
+        rep.violation("sequence_mismatch", "typed:sum[non-commutative +]", &format!("typed:cat:{}", words.len()), json!({"items": words, "observed": got, "expected_fold": joined}));
+      }
+    }
+  }
   // the callback operators and the two operators whose item type the AST cannot carry, over a hot
   // subject: on_complete / on_error (the error ends there: downstream sees no terminal),
   // timestamp (values untouched, instants between `before` and `after`, never decreasing),
